@@ -114,6 +114,17 @@ def _literal_seq(fa, it, at, _depth=0):
         return None
     if isinstance(it, ast.Call) and A.call_dotted(it) in ("tuple", "list", "sorted", "frozenset", "set") and len(it.args) == 1 and not it.keywords:
         return _literal_seq(fa, it.args[0], at, _depth + 1)
+    if isinstance(it, ast.Call) and A.call_dotted(it) == "zip" and len(it.args) >= 2 and not it.keywords:
+        cols = [_literal_seq(fa, a, at, _depth + 1) for a in it.args]
+        if any(c is None for c in cols) or len({len(c) for c in cols}) != 1:
+            return None
+        return [ast.Tuple(elts=list(row), ctx=ast.Load()) for row in zip(*cols)]
+    if isinstance(it, ast.BinOp) and isinstance(it.op, ast.Add):
+        l, r = _literal_seq(fa, it.left, at, _depth + 1), _literal_seq(fa, it.right, at, _depth + 1)
+        return None if l is None or r is None else l + r
+    if isinstance(it, (ast.ListComp, ast.GeneratorExp)):
+        bs = comprehension_elements(fa, it.generators, at)
+        return None if bs is None else [subst(it.elt, b) for b in bs]
     v = _bound_value(fa, it, at)
     if v is not None:
         if isinstance(it, ast.Name) and fa.df.is_local(it.id):
@@ -190,6 +201,57 @@ def static_truth(t):
     return None
 
 
+def fold_lookups(fa, expr, at):
+    """Copy of `expr` in which `TABLE.get(key[, default])` / `TABLE[key]` on a literal table (display, or a local / module-level
+    name bound to one) with an evident key (constant, or dotted global such as an enum member) is replaced by the entry."""
+    def key_text(k):
+        if isinstance(k, ast.Constant):
+            return "c:" + repr(k.value)
+        d = A.dotted(k)
+        return "d:" + d if d is not None and "." in d else None
+
+    def lookup(tab, key, default):
+        kt = key_text(key)
+        if kt is None:
+            return None
+        try:
+            ent = table_entries(fa, tab, at)
+        except Exception:
+            ent = None
+        if ent is None:
+            return None
+        hit, evident = None, True
+        for (k, v) in ent:
+            t = key_text(k)
+            if t is None:
+                evident = False
+            elif t == kt:
+                hit = v
+        if hit is not None:
+            return hit
+        return default if evident else None
+
+    class T(ast.NodeTransformer):
+        def visit_Call(self, n):
+            self.generic_visit(n)
+            if isinstance(n.func, ast.Attribute) and n.func.attr == "get" and 1 <= len(n.args) <= 2 and not n.keywords \
+                    and isinstance(n.func.value, (ast.Name, ast.Dict, ast.Attribute)):
+                r = lookup(n.func.value, n.args[0], n.args[1] if len(n.args) == 2 else ast.Constant(value=None))
+                if r is not None:
+                    return copy.deepcopy(r)
+            return n
+
+        def visit_Subscript(self, n):
+            self.generic_visit(n)
+            if isinstance(n.ctx, ast.Load) and isinstance(n.value, (ast.Name, ast.Dict)):
+                r = lookup(n.value, n.slice, None)
+                if r is not None:
+                    return copy.deepcopy(r)
+            return n
+
+    return T().visit(copy.deepcopy(expr))
+
+
 def comprehension_elements(fa, gens, at):
     """[{name: expression}] -- one binding per element that a single `for <target> in <literal sequence> [if ...]` clause
     lets through, in order; None when the clause is not understood."""
@@ -206,7 +268,7 @@ def comprehension_elements(fa, gens, at):
             return None
         keep = True
         for c in g.ifs:
-            tv = static_truth(subst(c, b))
+            tv = static_truth(fold_lookups(fa, subst(c, b), at))
             if tv is None:
                 return None
             keep = keep and tv
@@ -236,7 +298,7 @@ def table_entries(fa, expr, at, _depth=0):
         bs = comprehension_elements(fa, expr.generators, at)
         if bs is None:
             return None
-        return [(subst(expr.key, b), subst(expr.value, b)) for b in bs]
+        return [(subst(expr.key, b), fold_lookups(fa, subst(expr.value, b), at)) for b in bs]
     if isinstance(expr, ast.Call) and A.call_dotted(expr) == "dict.fromkeys" and len(expr.args) == 2:
         seq = _literal_seq(fa, expr.args[0], at)
         return [(e, expr.args[1]) for e in seq] if seq is not None else None
@@ -244,7 +306,11 @@ def table_entries(fa, expr, at, _depth=0):
             and (expr.args or expr.keywords):
         base = table_entries(fa, expr.args[0], at, _depth + 1) if expr.args else []
         if base is None:
-            return None
+            # dict(<sequence of (key, value) pairs>)
+            rows = _literal_seq(fa, expr.args[0], at, _depth + 1)
+            if rows is None or not all(isinstance(r, (ast.Tuple, ast.List)) and len(r.elts) == 2 for r in rows):
+                return None
+            base = [(r.elts[0], r.elts[1]) for r in rows]
         return base + [(ast.Constant(value=k.arg), k.value) for k in expr.keywords]
     if isinstance(expr, ast.BinOp) and isinstance(expr.op, ast.BitOr):
         l, r = table_entries(fa, expr.left, at, _depth + 1), table_entries(fa, expr.right, at, _depth + 1)
